@@ -711,7 +711,12 @@ class Povm(QOperation):
 
             # calculate hss
             for matrix in self.matrices_with_sparsity():
-                sqrt_matrix = sqrtm(matrix)
+                # principal square root of the Hermitian element from its eigendecomposition:
+                # scipy.linalg.sqrtm is not reliable for singular matrices (e.g. projectors)
+                eigenvals, eigenvecs = np.linalg.eigh(matrix)
+                sqrt_matrix = (
+                    eigenvecs * np.sqrt(eigenvals.astype(np.complex128))
+                ) @ eigenvecs.conj().T
                 hs_cb = np.kron(sqrt_matrix, sqrt_matrix.conjugate())
                 hs_gb = convert_hs(
                     hs_cb,
